@@ -16,8 +16,8 @@ def check_pubkey_deser(ctx, rule):
     if len(df) != 1:
         ctx.bad(rule, "PublicKey decoder", "hand-written Deserialize for PublicKey not found")
         return
-    b = body_of(fx, df[0]["key"])
-    ctx.touch_body(b)
+    # the decoder's region: module-private helpers (per-key-type readers, a final check) inlined, combinators desugared
+    b = ctx.region(None, policy="private", key=df[0]["key"], ps=True)
     # constructors: local functions returning Result<PublicKey, _> / PublicKey (public from_* entry points, or the private constructor)
     def _is_ctor(t):
         k = t.get("resolved_key") or t.get("callee_key")
@@ -44,9 +44,20 @@ def check_pubkey_deser(ctx, rule):
                 oks = bool(lv) and all(l.kind == "call" and SHIM_ACC.get(callee_name(l.data[1])) == "scheme" for l in lv)
                 ctx.inst(rule, "%s receives the parsed scheme" % callee_name(t).split("::")[-1], oks,
                          "scheme argument <- {%s}" % ", ".join(leaf_s(b, l) for l in lv), t["at"])
+    # the private constructor, inlined into the region: the same two operands, at the place the key is put together
+    for i in sorted(b.reach):
+        for st in b.blocks[i]["stmts"]:
+            if st["k"] == "assign" and st["rv"]["k"] == "agg" and st["rv"].get("agg") == "adt" and st["rv"].get("adt") == PK:
+                for (fname, acc) in (("keyid_hash_algorithms", "keyid_hash_algorithms"), ("scheme", "scheme")):
+                    if fname in st["rv"]["fields"]:
+                        lv = b.trace(st["rv"]["ops"][st["rv"]["fields"].index(fname)])
+                        okf = bool(lv) and all(l.kind == "call" and SHIM_ACC.get(callee_name(l.data[1])) == acc for l in lv)
+                        ctx.inst(rule, "the key built in the decoder stores the parsed %s" % fname, okf,
+                                 "%s <- {%s}" % (fname, ", ".join(leaf_s(b, l) for l in lv)), st.get("at") or b.at(i))
     # the Ok payload is what a constructor returned, untouched
     lv = b.trace({"l": 0, "p": []}, (OK, F0))
-    okp = bool(lv) and all(l.kind == "call" and l.data[0] in {i for (i, t) in ctors} for l in lv)
+    okp = bool(lv) and all((l.kind == "call" and l.data[0] in {i for (i, t) in ctors}) or
+                           (l.kind == "agg" and l.data[2].get("adt") == PK and not l.path) for l in lv)   # the private constructor, inlined
     writes = [d for d in b.defs.values() for x in d if x.kind == "assign" and any(isinstance(e, dict) and e.get("of", "").startswith("crypto::PublicKey::") for e in x.node["dst"]["p"])]
     ctx.inst(rule, "decoded key is the constructor's result, unmodified", okp and not writes,
              "Ok payload <- {%s}; field assignments to a PublicKey in the decoder: %d" % (", ".join(leaf_s(b, l) for l in lv), len(writes)), df[0]["at"])
@@ -232,6 +243,10 @@ def _param_calls(fx, root_fn, names):
         stack += fx.closures_of.get(k, [])
         b = body_of(fx, k)
         for i, t in b.calls():
+            for a in t["args"]:
+                c = op_const(a)
+                if c and c.get("fn_key") in fx.fns and fx.fns[c["fn_key"]]["kind"] in ("Fn", "AssocFn") and fx.fns[c["fn_key"]]["path"].startswith("crypto::"):
+                    stack.append(c["fn_key"])
             n = callee_name(t)
             if n not in names:
                 continue
@@ -277,6 +292,11 @@ def _calls_for_key_type(fx, root_key, kt, names, depth=0, seen=None):
             n = callee_name(t)
             if n in names:
                 out.append((n, b, i, t))
+            # a named local function handed to a combinator / parser callback instead of a closure
+            for a in t["args"]:
+                c = op_const(a)
+                if c and c.get("fn_key") in fx.fns and fx.fns[c["fn_key"]]["kind"] in ("Fn", "AssocFn") and fx.fns[c["fn_key"]]["path"].startswith("crypto::"):
+                    out += _calls_for_key_type(fx, c["fn_key"], kt, names, depth + 1, seen)
             ck = t.get("resolved_key") or t.get("callee_key")
             if ck in fx.fns and fx.fns[ck]["kind"] in ("Fn", "AssocFn") and not fx.fns[ck].get("impl_trait") \
                     and fx.fns[ck]["path"].startswith("crypto::") and "KeyType::" not in fx.fns[ck]["path"]:
